@@ -52,13 +52,18 @@ Labels(rep) == {Label(10, 0, 0, FALSE, 1024, 0, <<1, 3>>, <<104, 105>>, rep, PR0
                 Label(11, 3, 5, TRUE, 2048, 90 * 64, <<-401, 799>>, <<111, 100, 100>>, rep, PR1),
                 Label(12, 1, 10, FALSE, 512, 61 * 32, <<0, 0>>, <<84>>, rep, PR2),
                 \* reflection as the only transformation (STRANS without MAG / ANGLE)
-                Label(13, 0, 0, TRUE, 1024, 0, <<7, -5>>, <<114>>, rep, PR0)}
+                Label(13, 0, 0, TRUE, 1024, 0, <<7, -5>>, <<114>>, rep, PR0),
+                \* exact powers of 16 (magnification 16, angle 16 degrees): in an excess-64 base-16 real
+                \* the mantissa of 16^k is exactly 1/16 of the next exponent, the boundary of normalisation
+                Label(14, 0, 0, FALSE, 16384, 16 * 64, <<5, 5>>, <<109>>, rep, PR0)}
 Refs(rep) == {Ref(S_CELL, "cell", FALSE, 1024, 0, <<41, 83>>, rep, PR0),
               Ref(S_CELL, "cell", FALSE, 1024, 90 * 64, <<0, 0>>, rep, PR1),
               Ref(S_CELL, "cell", TRUE, 2048, 180 * 64, <<-399, 1>>, rep, PR0),
               Ref(S_CELL, "cell", FALSE, 512, 45 * 64, <<3, 3>>, rep, PR0),
               Ref(S_NOPE, "name", TRUE, 1024, 270 * 64, <<7, -7>>, rep, PR2),
-              Ref(S_CELL, "cell", TRUE, 1024, 0, <<-3, 9>>, rep, PR0)}
+              Ref(S_CELL, "cell", TRUE, 1024, 0, <<-3, 9>>, rep, PR0),
+              \* magnification 1/16 and angle 256 degrees: exact powers of 16 again
+              Ref(S_CELL, "cell", FALSE, 64, 256 * 64, <<9, 11>>, rep, PR0)}
 
 Empty(nm) == [name |-> nm, polys |-> <<>>, paths |-> <<>>, labels |-> <<>>, refs |-> <<>>]
 SubCell == [Empty(S_CELL) EXCEPT !.polys = <<Poly(1, 0, TriQ, NoRep, PR0)>>]
